@@ -423,7 +423,10 @@ def step (sk : Skeleton) (s : State) : Act → Option State
       | none => none
     else none
   | .closureInvoke q id =>
-    if s.crashed = false ∧ s.clLock = none then
+    -- (the table holds the closure's wrapper itself: `clStoresCreatedClosure`; a wrapper that serialises invocations
+    --  with a per-closure mutex lets nobody in while some thread is inside that closure's body)
+    if s.crashed = false ∧ s.clLock = none ∧
+       (sk.clStoresCreatedClosure = true ∨ s.invokes.all (fun iv => decide (s.running iv.thread ≠ some id)) = true) then
       some { s with invokes := { thread := q, id := id, hit := s.closures id } :: s.invokes,
                     running := if s.closures id = true then upd s.running q (some id) else s.running,
                     clLock := if s.closures id = true ∧ sk.clInvokeOutsideLock = false then some q else none }
